@@ -36,4 +36,17 @@ def collect(res, rng, nruns, bad):
                 bad.append(dict(failed="single-surface MD on a harmonic surface conserves the shadow energy E0 + p^2/2m + k (x-c)^2 (1 - k dt^2/4m)/2 exactly (varies by %.3g over %d steps)" % (max(abs(s_ - sh[0]) for s_ in sh), N), case=meta[-1]))
             elif max(abs(e_ - en[0]) for e_ in en) > al / (1 - al) * exc * (1 + 1e-9) + 1e-13:
                 bad.append(dict(failed="the error of the total energy of harmonic MD stays below alpha/(1-alpha) times the initial excess energy for any number of steps (alpha=%.3g: error %.3g, bound %.3g)" % (al, max(abs(e_ - en[0]) for e_ in en), al / (1 - al) * exc), case=meta[-1]))
+    from mudslide.models import HarmonicModel as _HM
+    hm2 = _HM([0.25, -0.5], 0.0, [[0.5, 0.0625], [0.0625, 0.75]], [100.0, 200.0])
+    for label, X_, P_ in [("float32", np.array([1.5, -2.25], dtype=np.float32), np.array([3.0, 0.5], dtype=np.float32)), ("int list", [2, -1], [3, 1]), ("int array", np.array([2, -1]), np.array([3, 1]))]:
+        res.count("md-run/initial-condition-dtype")
+        try:
+            la_ = mudslide.AdiabaticMD(hm2, X_, P_, dt=0.3, max_steps=25).simulate()[-1]
+            lb_ = mudslide.AdiabaticMD(hm2, np.asarray(X_, dtype=np.float64), np.asarray(P_, dtype=np.float64), dt=0.3, max_steps=25).simulate()[-1]
+            same_ = np.array_equal(np.asarray(la_["position"]), np.asarray(lb_["position"])) and np.array_equal(np.asarray(la_["momentum"]), np.asarray(lb_["momentum"])) and la_["energy"] == lb_["energy"]
+            why_ = "" if same_ else "final position %r vs %r" % (la_["position"], lb_["position"])
+        except Exception as ex:
+            same_ = False; why_ = "%s: %s" % (type(ex).__name__, ex)
+        if not same_:
+            bad.append(dict(failed="single-surface MD started from %s initial conditions is the run started from the same numbers in double precision (%s)" % (label, why_), case=dict(kind=label)))
     return cases, meta
